@@ -43,3 +43,18 @@ theorem gen_index_is_indexArr {N : Type} (xs : List (Val N)) (i : Int) (hlen : (
       simp [h2, this]
 
 end Jmes
+
+namespace Jmes
+
+/-- util.go's `isFalse`, translated from /repo's source (the clauses of its type switch over the decoded-JSON
+    types), is the model's `Val.isFalse`. -/
+theorem gen_isFalse_eq {N : Type} (v : Val N) : GenSlice.isFalse v = Val.isFalse v := by
+  cases v with
+  | null => simp [GenSlice.isFalse, Val.isFalse]
+  | bool b => cases b <;> simp [GenSlice.isFalse, Val.isFalse]
+  | num n => simp [GenSlice.isFalse, Val.isFalse]
+  | str s => cases s <;> simp [GenSlice.isFalse, Val.isFalse] <;> omega
+  | arr xs => cases xs <;> simp [GenSlice.isFalse, Val.isFalse] <;> omega
+  | obj kvs => cases kvs <;> simp [GenSlice.isFalse, Val.isFalse] <;> omega
+
+end Jmes
